@@ -234,6 +234,27 @@ fn find_related_text() {
             }
         }
     }
+    // the equality relation: from a known selection it returns that selection itself; from a set all its members when every member
+    // is known, and nothing otherwise - whatever the order of the members (the shortcut that does not walk the index)
+    let unknown: Vec<(usize, usize)> = { let mut v = vec![]; for b in 0..=n { for e in b..=n { if !known.contains(&(b, e)) { v.push((b, e)); } } } v };
+    let eq = TextSelectionOperator::equals();
+    for (b, e) in known.iter().chain(unknown.iter()) {
+        let reference = resource.textselection(&Offset::simple(*b, *e)).unwrap();
+        let got: Vec<(usize, usize)> = reference.related_text(eq).map(|t| (t.begin(), t.end())).collect();
+        let want: Vec<(usize, usize)> = if known.contains(&(*b, *e)) { vec![(*b, *e)] } else { vec![] };
+        if got != want { println!("WITNESS {{\"clause\":\"next_textselection/equals\",\"reference\":[{},{}],\"search_returns\":\"{:?}\",\"want\":\"{:?}\"}}", b, e, got, want); return; }
+    }
+    let pool: Vec<(usize, usize)> = known.iter().step_by(7).take(4).cloned().chain(unknown.iter().take(2).cloned()).collect();
+    for i in 0..pool.len() { for j in 0..pool.len() { for k in 0..pool.len() {
+        if i == j || j == k || i == k { continue; }
+        let members = [pool[i], pool[j], pool[k]];
+        let mut set = TextSelectionSet::new(resource.handle());
+        for (b, e) in members.iter() { set.add(resource.textselection(&Offset::simple(*b, *e)).unwrap().inner().clone()); }
+        let mut got: Vec<(usize, usize)> = set.as_resultset(&store).related_text(eq).map(|t| (t.begin(), t.end())).collect();
+        let mut want: Vec<(usize, usize)> = if members.iter().all(|m| known.contains(m)) { members.to_vec() } else { vec![] };
+        got.sort(); want.sort();
+        if got != want { println!("WITNESS {{\"clause\":\"next_textselection/equals\",\"reference_set\":\"{:?}\",\"search_returns\":\"{:?}\",\"want\":\"{:?}\"}}", members, got, want); return; }
+    }}}
     println!("NO-WITNESS find_related_text");
 }
 
